@@ -32,7 +32,7 @@ from rv.sim import Bench
 from rv.ref.c11_inmodel import InOracle
 
 PROPERTY = "C11"
-CASES = {"quick": 800, "thorough": 12000}
+CASES = {"quick": 720, "thorough": 12000}
 RULE = ("case = harness (stand-alone transfer manager | USBDevice with 1-2 stream IN endpoints), max packet size, tx_ready profile, "
         "producer profile (transfer lengths around multiples of the packet size, valid gaps), flush profile, host schedule of 25-70 "
         "transactions with ACK / no-ACK / lost-ACK outcomes and foreign tokens; non-trivial = at least one retry, one ZLP or flushed "
